@@ -5,7 +5,10 @@ PROP = dict(
         # the operational model (write -> parse -> executeDirectives -> NewServer) against the
         # declarative properties, for every block and every admissible written order
         dict(module="DirectiveOrder", cfg=dict(quick="DirectiveOrder_quick.cfg", thorough="DirectiveOrder_thorough.cfg"),
-             workers=8, timeout=dict(quick=300, thorough=2400)),
+             workers=12, timeout=dict(quick=300, thorough=2400)),
+        # random behaviours of the same model with blocks of up to 6 pool lines (thorough only)
+        dict(module="DirectiveOrder", cfg=dict(thorough="DirectiveOrder_sim.cfg"), workers=8,
+             simulate=dict(thorough=dict(num=20000, depth=80)), timeout=dict(thorough=900)),
         # emission: one CASE per block (all its reorderings, predicted answers) + the pairwise table
         dict(module="DirectiveOrder", cfg=dict(quick="DirectiveOrderEmit_quick.cfg", thorough="DirectiveOrderEmit_thorough.cfg"),
              emit=True, workers=8, timeout=dict(quick=300, thorough=1200)),
